@@ -178,6 +178,8 @@ func C15(c *Ctx) {
 	r.Rule("R15.3", "special proposals: in countVote the decision function and both status changes are reachable only when !IsSpecial or IsSuperAdminVoted.")
 	r.Rule("R15.4", "effect once: every handleResult call is preceded in the same entry by a concluding call; in dispatchable entries every direct concluding change is followed by handleResult before returning.")
 	r.Rule("R15.5", "decision function: every MakeStrategyDecision call on a proposal passes (StrategyExpression, ApproveNum, AgainstNum, InitialElectorateNum, AvailableElectorateNum) of one and the same proposal, in this order.")
+	r.Rule("R15.9", "availability is read before it is changed: in LogoutRole the IsAvailable() test that guards the subtraction of the elector from the open proposals (updateRoleRelatedProposalInfo(.., EventLogout)) is made on the role as it was before basicGovernance moved it to logouting - a record loaded after that call is never available, the subtraction never happens, and every open proposal keeps counting an elector who can no longer vote (a rejected logout then adds one more).")
+	c.c15StaleAvailability()
 	r.NotDecided = append(r.NotDecided, "semantics of govaluate strategy expressions; tally arithmetic over vote sequences; electorate snapshots; how often one lifecycle event adjusts AvailableElectorateNum over a submission / approval history (seed C15-r9)")
 
 	m := c.Contracts()
@@ -792,4 +794,69 @@ func (c *Ctx) c15Availability() {
 			"the status set behind IsAvailable() gained "+strings.Join(extra, ",")+": objects in that status - e.g. an administrator whose logout proposal is pending - count as available again: they vote, stay in the electorate and keep thresholds from being reached")
 	}
 	r.Floor("R15.8", "availability sets found", n, 2)
+}
+
+// c15StaleAvailability: R15.9.
+func (c *Ctx) c15StaleAvailability() {
+	r := c.R
+	fn := c.fn("R15.9", "internal/executor/contracts.(*RoleManager).LogoutRole")
+	if fn == nil {
+		return
+	}
+	var bg ssa.Instruction
+	for _, call := range core.Calls(fn) {
+		if strings.HasSuffix(core.CalleeName(call), "RoleManager).basicGovernance") {
+			bg = call
+		}
+	}
+	isDec := func(in ssa.Instruction) bool {
+		call, ok := in.(ssa.CallInstruction)
+		return ok && strings.HasSuffix(core.CalleeName(call), "RoleManager).updateRoleRelatedProposalInfo")
+	}
+	decs := sites(fn, isDec)
+	r.Floor("R15.9", "electorate subtractions in LogoutRole", len(decs), 1)
+	if bg == nil || len(decs) == 0 {
+		return
+	}
+	after := core.Reach([]core.Point{core.After(bg)}, nil, nil)
+	// the availability tests in front of the subtraction and the record each of them reads
+	n := 0
+	for _, b := range fn.Blocks {
+		ifi := core.IfOf(b)
+		if ifi == nil {
+			continue
+		}
+		for _, ef := range core.CondFactsOf(ifi) {
+			cc, ok := core.Strip(ef.Fact.Subject).(*ssa.Call)
+			if !ok || !strings.HasSuffix(core.CalleeName(cc), "Role).IsAvailable") || len(cc.Call.Args) == 0 {
+				continue
+			}
+			n++
+			rec := core.Strip(cc.Call.Args[0])
+			// where the record was filled: GetObject(key, rec)
+			stale := ""
+			for _, call := range core.Calls(fn) {
+				if !core.IsStubCall("GetObject")(valueOf(call)) {
+					continue
+				}
+				args := call.Common().Args
+				if len(args) == 0 || !core.Mentions(args[len(args)-1], func(w ssa.Value) bool { return w == rec }) {
+					continue
+				}
+				if after.Has(call) {
+					stale = c.P.Pos(call.Pos())
+				}
+			}
+			key := "LogoutRole: availability read on the role as it was before the logout"
+			if stale != "" && after.Has(cc) {
+				r.Bad("R15.9", key, c.P.Pos(cc.Pos()), "the role tested with IsAvailable() is loaded at "+stale+", after basicGovernance has stored it as logouting: the test is always false, so a logging-out admin is never subtracted from the available electorate of the open proposals")
+			} else {
+				r.OK("R15.9", key, c.P.Pos(cc.Pos()), "the tested record was read before the status change")
+			}
+		}
+	}
+	if n == 0 {
+		// a value computed before the status change (wasAvailable) guards the subtraction: fine when it is computed before
+		r.OK("R15.9", "LogoutRole: availability read on the role as it was before the logout", c.P.Pos(fn.Pos()), "no IsAvailable() test on a record loaded after the status change")
+	}
 }
